@@ -70,6 +70,14 @@ def judge (j : Json) : R Verdict := do
           spec := spec ++ ["used-but-not-required-by-the-ir:" ++ u]
         if !(declaredKeys.contains (Tii.irName u)) then spec := spec ++ ["used-but-declared-differently:" ++ u]
       if declaredKeys.eraseDups.length != declaredKeys.length then spec := spec ++ ["colliding-keys"]
+    -- a client supplying precisely what the file declares resolves the transaction: the server keeps what the IR
+    -- requires and nothing stays pending
+    let req := fieldD t "request"
+    if !(isNull req) then
+      match req.getObjVal? "remaining" with
+      | .ok (.arr rs) => if !rs.isEmpty then spec := spec ++ ["declared-keys-leave-parameters-pending"]
+      | .ok _ => spec := spec ++ ["declared-keys-do-not-apply"]
+      | .error _ => spec := spec ++ ["declared-keys-request-refused"]
     match fieldD t "decodes_to_lowered" with
     | .bool true => pure ()
     | .bool false => spec := spec ++ ["embedded-ir-differs-from-lowering"]
